@@ -39,9 +39,15 @@ Formats == UNION {Allowed(kt) : kt \in KeyTypes} \cup CertNames \cup {"", "unkno
 
 (* mutation classes of the presented signature / data.  Real = the signature value or the signed
    content changed; Benign = the same signature value in another encoding (or its algebraic twin) *)
-RealMut   == {"otherdata", "flipA", "flipB", "trail", "trunc", "empty"}
+RealMut   == {"otherdata", "flipA", "flipB", "trail", "trunc", "empty",
+              "prefix01", "prefixFF", "prefixMany", "prefix00"}      \* bytes prepended to the blob (1 x 0x01, 1 x 0xff, several, 1 x 0x00)
 SKMut     == {"flagsAfter", "counterAfter", "restTrunc", "restTrail"}
 BenignMut == {"rsaShort", "ecdsaPadR", "ecdsaNegS"}
+(* One prepended class is not judged: a single zero byte in front of an RSA signature blob denotes the same integer s
+   (RFC 4253 6.6 / RFC 8332 3 define the blob as s in exactly the modulus length, so the code -- crypto/rsa -- rejects it,
+   which is what VerifyD says; a verifier that tolerated it would still not accept a different signature value).  For every
+   other key type the blob has a fixed length or an inner structure, a prepended byte destroys it. *)
+Unjudged(x) == x.mu \in BenignMut \/ (x.mu = "prefix00" /\ x.ts = "ssh-rsa" /\ x.tv = "ssh-rsa")
 UP(fl) == fl % 2 = 1
 
 VARIABLES v, res, m, mres, o, ores, part, phase
@@ -151,7 +157,8 @@ Done == phase = "done"
 (* C40, verification: accepted exactly when valid; the only accepted non-identical signatures are
    re-encodings / the algebraic twin of a valid one *)
 VerifyIffValid == (Done /\ part = 1) =>
-   /\ (v.mu \notin BenignMut) => (res.acc <=> Valid(v))
+   /\ (~Unjudged(v)) => (res.acc <=> Valid(v))
+   /\ (v.mu = "prefix00") => ~res.acc                              \* the code as it is rejects every prepended byte
    /\ (v.mu \in BenignMut) => (res.acc <=> Valid([v EXCEPT !.mu = "none"]))
 (* a format outside the key type's table is refused whatever else holds *)
 FormatTable == (Done /\ part = 1 /\ v.f \notin Allowed(v.tv)) => ~res.acc
